@@ -173,3 +173,29 @@ def generate_class_terms(seed, n, depth=3):
         g = CGen(seed * 1000003 + i)
         out.append(g.term(g.r.choice([1, 1, 2, 2, 3, depth])))
     return out
+
+
+def big_class_terms(seed, n):
+    """Classes with many single characters (33..70) that contain runs of consecutive code points touching the class
+    metacharacters: the constructor's character-to-range compaction on large inputs."""
+    out = []
+    fill = [c for c in range(33, 127)] + [0xE9, 0x3B1, 0x3B2, 0x3B3, 0x20AC]
+    for i in range(n):
+        r = random.Random(seed * 7127 + i)
+        anchor = r.choice([91, 92, 93, 94, 45, 36, 47, 46])
+        lo = anchor - r.randrange(0, 4)
+        run = list(range(lo, max(anchor, lo + 2) + r.randrange(1, 4)))
+        rest = [c for c in fill if c not in run and abs(c - anchor) > 6]
+        k = r.choice([5, 20, 31, 33, 34, 40, 70])
+        chars = run + r.sample(rest, min(k, len(rest)))
+        r.shuffle(chars)
+        t = ('CFrom', r.random() < 0.3, ('args',) + tuple(('c', c) for c in chars))
+        x = r.random()
+        if x < 0.2:
+            t = ('COr', t, CGen(seed + i).leaf())
+        elif x < 0.4:
+            t = ('CSub', t, CGen(seed + i).leaf())
+        elif x < 0.5:
+            t = ('CInv', t)
+        out.append(t)
+    return out
